@@ -1103,10 +1103,10 @@ theorem freqFold_perm (P : Pattern → Line × Nat → Bool) (ps : List Pattern)
 theorem reFreqs_perm (T : CharTable) (E : List Char) (w : Bool) (ps : List Pattern) (cl cl' : Cleaned)
     (h : (cl.strings.zip cl.freqs).Perm (cl'.strings.zip cl'.freqs)) :
     reFreqs T E w ps cl = reFreqs T E w ps cl' := by
-  unfold reFreqs
-  exact freqFold_perm (fun p e => matchB T E
-    (if w then [{ atom := .code cWhite, m := 0, M := none, fixed := false }] ++ p ++
-      [{ atom := .code cWhite, m := 0, M := none, fixed := false }] else p) e.1) ps [] _ _ h
+  have := freqFold_perm (fun p e => matchB T E
+    (if w then [({ atom := .code cWhite, m := 0, M := none, fixed := false } : Frag)] ++ p ++
+      [({ atom := .code cWhite, m := 0, M := none, fixed := false } : Frag)] else p) e.1) ps [] _ _ h
+  exact this
 
 theorem zip_fst_snd {α β : Type} (l : List (α × β)) : (l.map (·.1)).zip (l.map (·.2)) = l := by
   induction l with
